@@ -61,13 +61,27 @@ def _z3_check(ob, timeout_ms):
     return r
 
 
-def solve_one(ob, timeout_ms=10000, use_cvc5=True, cross=False, finite=True):
+def cross_check(ob, timeout_ms):
+    """thorough tier: re-decide with cvc5; returns a message on disagreement, else None"""
+    text = to_smt2(ob.assumptions, ob.goal)
+    out, dt = run_cli([CVC5, "--strings-exp", "--tlimit=%d" % min(timeout_ms, 20000)], text, min(timeout_ms, 20000) / 1000)
+    ob.cross = out
+    if (out == "unsat" and ob.verdict == "refuted" and getattr(ob, "via", None) is None) or (out == "sat" and ob.verdict == "discharged"):
+        return "z3 says %s, cvc5 says %s" % (ob.verdict, out)
+    return None
+
+
+def solve_one(ob, timeout_ms=10000, use_cvc5=True, cross=False, finite=True, skip_short=False):
     """Sets ob.verdict in {'discharged','refuted','unknown'}.
     Schedule: z3 (short) -> finite-instantiation model search -> z3 (full budget) -> cvc5 -> z3 4.8 CLI."""
     t0 = time.time()
     ob.solver = "z3-%s" % z3.get_version_string()
-    r = _z3_check(ob, min(2000, timeout_ms))
-    ob.time = time.time() - t0
+    if skip_short:
+        ob.verdict = "unknown"
+        r = z3.unknown
+    else:
+        r = _z3_check(ob, min(2000, timeout_ms))
+    ob.time = getattr(ob, "time", 0.0) + time.time() - t0
     if ob.verdict == "unknown" and finite:
         # counter-model search on a finite instantiation (weaker formula: the model is only a
         # candidate, confirmed or discarded by native replay)
@@ -76,7 +90,7 @@ def solve_one(ob, timeout_ms=10000, use_cvc5=True, cross=False, finite=True):
         t1 = time.time()
         try:
             s2 = z3.Solver()
-            s2.set("timeout", min(timeout_ms, 8000))
+            s2.set("timeout", min(timeout_ms, 5000))
             for f in finite_instance(ob.assumptions, ob.goal):
                 s2.add(f)
             if s2.check() == z3.sat:
@@ -115,7 +129,7 @@ def solve_one(ob, timeout_ms=10000, use_cvc5=True, cross=False, finite=True):
         else:
             ob.detail += " cvc5: " + out
             # last resort: the other z3
-            out2, dt2 = run_cli([Z3CLI, "-T:%d" % max(1, timeout_ms // 1000)], text, timeout_ms / 1000)
+            out2, dt2 = run_cli([Z3CLI, "-T:%d" % max(1, timeout_ms // 1000), "-memory:4000"], text, timeout_ms / 1000)
             ob.time += dt2
             if out2 == "unsat":
                 ob.verdict = "discharged"
